@@ -371,6 +371,129 @@ func c28burst(run int, seed uint64, nn, rounds int) (o c28obs) {
 	return
 }
 
+// c28writeback: value histories A -> B -> A.  Every node holds a value A that has been delivered; then, round after
+// round, the application writes a different value B and restores A back to back on the server side (both land before the
+// subscription publishes again), then silence.  The consumer is fast (callback, nothing may be dropped).  After quiescence
+// the last value delivered for a node must be the value the server holds (A).
+func c28writeback(run int, seed uint64, nn, rounds int) (o c28obs) {
+	o = c28obs{Kind: "c28", Run: run, Mode: "writeback", Nodes: nn, Writes: make([][]int64, nn)}
+	defer func() {
+		if r := recover(); r != nil {
+			o.Err = fmt.Sprintf("PANIC: %v", r)
+		}
+	}()
+	ts, err := startServer([]secPair{{"None", ua.MessageSecurityModeNone}}, nil, nn)
+	if err != nil {
+		o.Err = err.Error()
+		return
+	}
+	defer ts.Close()
+	ctx, cancel := context.WithTimeout(context.Background(), 90*time.Second)
+	defer cancel()
+	if _, err := getEndpoints(ctx, ts.URL); err != nil {
+		o.Err = err.Error()
+		return
+	}
+	mc, err := plainClient(ctx, ts.URL, opcua.RequestTimeout(20*time.Second), opcua.AutoReconnect(false))
+	if err != nil {
+		o.Err = err.Error()
+		return
+	}
+	defer mc.Close(context.Background())
+	idx := map[string]int{}
+	for i, n := range ts.Nodes {
+		idx[n.String()] = i
+	}
+	var mu sync.Mutex
+	var errs atomic.Int64
+	nm, _ := monitor.NewNodeMonitor(mc)
+	nm.SetErrorHandler(func(_ *opcua.Client, _ *monitor.Subscription, err error) { errs.Add(1) })
+	sub, err := nm.Subscribe(ctx, &opcua.SubscriptionParameters{Interval: 20 * time.Millisecond},
+		func(_ *monitor.Subscription, m *monitor.DataChangeMessage) {
+			d := c28deliv{Node: -1, Value: -1}
+			if m.Error != nil || m.NodeID == nil {
+				d.Node = -2
+			} else {
+				if i, ok := idx[m.NodeID.String()]; ok {
+					d.Node = i
+				}
+				if m.DataValue != nil && m.DataValue.Value != nil {
+					if v, ok := m.DataValue.Value.Value().(int64); ok {
+						d.Value = v
+					}
+				}
+			}
+			mu.Lock()
+			o.Deliv = append(o.Deliv, d)
+			mu.Unlock()
+		})
+	if err != nil {
+		o.Err = "subscribe: " + err.Error()
+		return
+	}
+	ndeliv := func() int { mu.Lock(); defer mu.Unlock(); return len(o.Deliv) }
+	quiesce := func() {
+		last, lastChange := ndeliv(), time.Now()
+		deadline := time.Now().Add(6 * time.Second)
+		for time.Now().Before(deadline) {
+			time.Sleep(10 * time.Millisecond)
+			if n := ndeliv(); n != last {
+				last, lastChange = n, time.Now()
+			} else if time.Since(lastChange) > 250*time.Millisecond {
+				return
+			}
+		}
+	}
+	write := func(i int, v int64) {
+		dv := &ua.DataValue{EncodingMask: ua.DataValueValue, Value: ua.MustVariant(v)}
+		if st := ts.NS.SetAttribute(ts.Nodes[i], ua.AttributeIDValue, dv); st == ua.StatusOK {
+			o.Writes[i] = append(o.Writes[i], v)
+		}
+	}
+	for i := 0; i < nn; i++ {
+		o.AddedAt = append(o.AddedAt, [2]int{i, 0})
+		o.Monitored = append(o.Monitored, i)
+	}
+	if err := sub.AddNodeIDs(ctx, ts.Nodes...); err != nil {
+		o.Err = "add: " + err.Error()
+		return
+	}
+	quiesce()
+	// value A of every node, delivered before the write-back rounds start
+	for i := 0; i < nn; i++ {
+		write(i, int64(i+1)*1_000_000)
+	}
+	quiesce()
+	r := rng.New(seed)
+	for round := 1; round <= rounds; round++ {
+		start := r.Intn(nn)
+		for k := 0; k < nn; k++ {
+			i := (start + k) % nn
+			a := int64(i+1) * 1_000_000
+			// B, then A again, back to back; every third node in a round also goes A -> B -> C -> A
+			write(i, a+int64(round))
+			if (i+round)%3 == 0 {
+				write(i, a+500_000+int64(round))
+			}
+			write(i, a)
+		}
+		quiesce()
+	}
+	vs, err := readMany(ctx, mc, ts.Nodes)
+	if err != nil {
+		o.Err = "final read: " + err.Error()
+		return
+	}
+	o.Final = vs
+	o.Dropped = sub.Dropped()
+	o.Errors = int(errs.Load())
+	mu.Lock()
+	o.Deliv = append([]c28deliv(nil), o.Deliv...)
+	mu.Unlock()
+	sub.Unsubscribe(ctx)
+	return
+}
+
 func c28(seed uint64, runs, writesPerNode int) {
 	quietLogs()
 	r := rng.New(seed)
@@ -385,4 +508,6 @@ func c28(seed uint64, runs, writesPerNode int) {
 		}
 		emit(c28run(i, mode, r.U64(), writesPerNode))
 	}
+	// one more run: A -> B -> A value histories with a fast consumer
+	emit(c28writeback(runs, r.U64(), 8, 6+runs/4))
 }
